@@ -79,5 +79,32 @@ func TestVerifC19Gin(t *testing.T) {
 			return c19Drive{HandlerCalls: calls, Rejected: w.Code == http.StatusTooManyRequests}
 		})
 	}
+	// an earlier middleware has already started the response (streaming preamble, early flush): a blocked request must
+	// still be stopped there (the status can no longer change, so "rejected" = the chain was aborted before the handler)
+	calls = 0
+	r2 := gin.New()
+	r2.Use(func(c *gin.Context) {
+		c.Writer.WriteHeader(http.StatusOK)
+		c.Writer.WriteHeaderNow()
+		_, _ = c.Writer.WriteString("preamble;")
+		c.Next()
+	})
+	r2.Use(SentinelMiddleware())
+	later := 0
+	r2.Use(func(c *gin.Context) { later++; c.Next() })
+	r2.GET("/s/:id", func(c *gin.Context) { calls++; _, _ = c.Writer.WriteString("body") })
+	for _, blocked := range []bool{false, true} {
+		calls, later = 0, 0
+		if blocked {
+			c19SetBlocked("GET:/s/:id")
+		} else {
+			c19SetBlocked()
+		}
+		c19Case(t, "gin", "SentinelMiddleware", "response-already-started", "GET:/s/:id", blocked, "ok", false, func() c19Drive {
+			w := httptest.NewRecorder()
+			r2.ServeHTTP(w, httptest.NewRequest("GET", "/s/1", nil))
+			return c19Drive{HandlerCalls: calls, Rejected: calls == 0 && later == 0}
+		})
+	}
 	c19SetBlocked()
 }
